@@ -265,14 +265,6 @@ Theorem C12_lookup_lenient_refuted : exists ms ms' n o,
 Proof. exact ModuleLookup.lookup_lenient_refuted. Qed.
 Print Assumptions C12_lookup_lenient_refuted.
 
-(* the C's rule asked WITHOUT an OID for a name two accepted editions share: order dependent
-   (finding C12-import-edition-by-order; names_distinct cannot be dropped above) *)
-Theorem C12_lookup_name_shared_refuted : exists ms ms' n,
-  ModuleLookup.accepted_b ms = true /\ Permutation ms ms' /\
-  ModuleLookup.lookup_c ms n None <> ModuleLookup.lookup_c ms' n None.
-Proof. exact ModuleLookup.lookup_name_shared_refuted. Qed.
-Print Assumptions C12_lookup_name_shared_refuted.
-
 (* ---- round 5: the output does not depend on what the output directory already holds ------------------------------
    identical_files (libasn1compiler/asn1c_save.c) as a block-wise comparison with block size B (coq/Fix/IdenticalFiles.v) *)
 From A1 Require Import Fix.IdenticalFiles Fix.IdenticalFilesProofs.
